@@ -17,7 +17,7 @@ namespace Py
 inductive PyErr where
   | ValueError | IndexError | OverflowError | TypeError | InvalidOperation
   | ParserError | StopIteration | KeyError | AssertionError | AttributeError
-  | ZeroDivisionError | NotImplemented | UnicodeError
+  | ZeroDivisionError | NotImplemented | UnicodeError | StructError
   deriving DecidableEq, Repr, Inhabited
 
 def PyErr.name : PyErr → String
@@ -27,7 +27,7 @@ def PyErr.name : PyErr → String
   | .StopIteration => "StopIteration" | .KeyError => "KeyError"
   | .AssertionError => "AssertionError" | .AttributeError => "AttributeError"
   | .ZeroDivisionError => "ZeroDivisionError" | .NotImplemented => "NotImplemented"
-  | .UnicodeError => "UnicodeError"
+  | .UnicodeError => "UnicodeError" | .StructError => "StructError"
 
 abbrev R (α : Type) := Except PyErr α
 
